@@ -22,9 +22,9 @@ CHECKS = {
     "C17": dict(
         engine="hist (on zsym)", level="other", design_ref="DESIGN.md section 4 / C17",
         technique="symbolic execution (zsym/z3) of from_proto over malformed protos whose name / enum / tensor-field / structure slots are symbolic integers; oracles: termination, exception-or-consistent IR, no file access, serialization fixpoint",
-        text=("Five templates of malformed protos are built directly with protobuf; every slot is a symbolic integer: (names) every name of a two-scope graph with an If body and a function drawn from {'', a, b, c} - dangling, duplicate, empty, shadowing names, cycles and "
+        text=("Six templates of malformed protos are built directly with protobuf; every slot is a symbolic integer: (names) every name of a two-scope graph with an If body and a function drawn from {'', a, b, c} - dangling, duplicate, empty, shadowing names, cycles and "
               "unsorted orders arise from equal choices, the initializer optionally external; (enums) undefined/unknown tensor and element types, every attribute type against every populated field; (tensors) dims vs payload, several storage fields, negative and "
-              "huge dims, 13 absurd external-data entries in pairs; (structure) missing graph/op_type/branches, duplicate and recursive functions, stray reference attributes, opset-import defects, duplicate inputs/outputs, deep nesting, IR versions 0 / negative / 2^40. "
+              "huge dims, 13 absurd external-data entries in pairs; (functions) legacy and native function value-info around IR version 10 with separators in domains/value names and overloads; (structure) missing graph/op_type/branches, duplicate and recursive functions, stray reference attributes, opset-import defects, duplicate inputs/outputs, deep nesting, IR versions 0 / negative / 2^40. "
               "On every path from_proto returns or raises an Exception within the time limit; a returned model satisfies the C01 invariant and the documented producer-graph ownership rule; no file is touched while deserializing or reading name/dtype/shape/size; "
               "to_proto of the result raises or is a fixpoint of deserialize-serialize."),
         note="Trusted: z3; proxies cross-checked per path; file access observed through an audit hook and os.stat/lstat/readlink wrappers (interpreter reads of its own source are ignored). Wire-format mutations, invalid UTF-8 and undeclared enum numbers (rejected by protobuf itself) are outside the claim.",
@@ -50,7 +50,7 @@ CHECKS = {
     "C18": dict(
         engine="hist (on zsym) + euf", level="translation_validation", design_ref="DESIGN.md section 4 / C18",
         technique="symbolic execution (zsym/z3) of convenience.extract / analyze_implicit_usage over sources with symbolic captures and symbolic cuts; independent backward slice + EUF equivalence (z3) of the extracted graph with the source region",
-        text=("Sources: main graphs of 9 family models, two model-local functions, two graph views and a nested family whose body nodes (depth 1 and 2, GRAPH and GRAPHS attributes) capture symbolically selected outer values. The cut is symbolic: one bit per scope value "
+        text=("Sources: main graphs of 9 family models, two model-local functions, five graph views (also views listing their nodes in another order than the owning graph and a sorted view of an unsorted graph) and a nested family whose body nodes (depth 1 and 2, GRAPH and GRAPHS attributes) capture symbolically selected outer values. The cut is symbolic: one bit per scope value "
               "selects the boundary inputs, every value is tried as first output with a symbolic optional second output, passed by object / by name / in reversed order. On every path: the result shares no graph/node/value with the source; its nodes are exactly the "
               "independently computed backward slice in source order; needed initializers are present with equal bytes; an uncovered non-initializer requirement raises, and nothing else does; z3 proves (EUF) that with the result's inputs bound to the source's "
               "boundary values its outputs equal the source's values for all inputs and operator semantics. analyze_implicit_usage must equal the brute-force capture sets of every nested graph for every capture pattern."),
@@ -59,7 +59,7 @@ CHECKS = {
     "C14": dict(
         engine="hist (on zsym) + shadow passes", level="other", design_ref="DESIGN.md section 4 / C14",
         technique="symbolic execution (zsym/z3) of pass invocations over a model family: pass selector, invocation mode, the strip limit of call_onnx_api, which initializers are graph inputs and ONNX-boundary faults are symbolic; contract oracles; per-path native re-execution",
-        text=("For each of 18 models every built-in pass (24 configurations) is invoked directly (then re-applied to its fixpoint), functionalized and through a PassManager: returned-model identity per in_place/functional, modified=False => byte-identical "
+        text=("For each of 22 models every built-in pass (24 configurations) is invoked directly (then re-applied to its fixpoint), functionalized, through a PassManager and through a manager of functional passes applied three times to its own output: returned-model identity per in_place/functional, modified=False => byte-identical "
               "serialization, convergence within #nodes+#values+#functions+2 rounds, the C01 invariant afterwards, topological order kept, result still serializes. For CheckerPass/ShapeInferencePass the size limit above which call_onnx_api strips an initializer "
               "is a SYMBOLIC integer (every stripped/kept split is a z3-decided path), a symbolic mask lists initializers as graph inputs, a symbolic index makes one initializer a lazy tensor that raises during serialization and a symbolic flag makes the "
               "ONNX call raise; on every path names, order and identity of initializers, their tensors, graph inputs/outputs, types and shapes must be exactly as before."),
@@ -68,7 +68,7 @@ CHECKS = {
     "C05": dict(
         engine="euf (translation validation)", level="translation_validation", design_ref="DESIGN.md section 4 / C05",
         technique="translation validation with uninterpreted functions (z3, EUF): output terms of the model before and after the real pass sequence - as object graph and after a serialize/deserialize round trip - proved equal for ALL inputs and ALL operator semantics; sat answers replayed with onnxruntime / the ONNX checker",
-        text=("Every built-in pass (20 configurations), every ordered pair of the rewriting passes and recommended triples (thorough: all ordered triples of 9 rewriting passes) run for real on a family of 17 checker-valid models built from real operators "
+        text=("Every built-in pass (20 configurations), every ordered pair of the rewriting passes and recommended triples (thorough: all ordered triples of 9 rewriting passes) run for real on a family of 22 checker-valid models built from real operators "
               "(duplicate subexpressions differing in one attribute / optional input slot / output count, Identity chains touching inputs, initializers and outputs across scopes, duplicated initializers differing in dtype/shape/bytes, every Constant form, "
               "If/Loop bodies capturing outer values two scopes up, model-local functions with attribute parameters, defaults and nesting, outputs aliasing inputs, unsorted order, name clashes across scopes). After EVERY pass of a sequence the outputs are "
               "encoded as EUF terms and z3 proves position-wise equality with the original for all inputs and all interpretations of the operators; number/order of outputs and non-initializer inputs are compared; a pass that raises must leave an equivalent model. "
@@ -78,7 +78,7 @@ CHECKS = {
     "C08": dict(
         engine="fsmodel + hist (on zsym)", level="fault_enumeration", design_ref="DESIGN.md section 4 / C08",
         technique="symbolic execution (zsym/z3) of the real save path on an in-memory file system whose every effect is a fault/crash point: failing effect, raising tensor/callback, threshold and shard limit are symbolic integers; crash oracle at every effect boundary",
-        text=("The real _io.save -> unload_from_model -> _write_external_tensors -> _write_external_data -> _ExternalDataWriter and the real ExternalTensor run on an in-memory POSIX-subset file system. For 8 scenarios (no destination, foreign "
+        text=("The real _io.save -> unload_from_model -> _write_external_tensors -> _write_external_data -> _ExternalDataWriter and the real ExternalTensor run on an in-memory POSIX-subset file system. For 9 scenarios (incl. a read-only destination; faults may be BaseExceptions: KeyboardInterrupt from the callback, SystemExit from a tensor) (no destination, foreign "
               "destination, re-save onto the model's own data file, own + other backing file, symlinked destination, hard-linked destination, sharded, sharded with colliding shard) and their max_workers=2 variants on virtual threads, "
               "the index of the failing file-system effect, of the raising tensor (before writing / after half of its bytes) and of the raising callback, the size threshold and the shard limit are symbolic; on every path and at EVERY effect "
               "boundary (process death) the destination holds old or complete-new bytes and no other pre-existing file changed; after a failure: old bytes, no temporary leftovers, tensors valid and readable; invalid only if replaced."),
@@ -91,7 +91,7 @@ CHECKS = {
               "re-establishes it, accounts exactly, blocks only when the documented guard is false and wakes all sleepers; the memory bound follows from the invariant (SMT). (B) bounded: _ExternalDataWriter (parallel) and the shard-driver layer run "
               "unchanged on virtual threads: every interleaving at synchronisation points within the preemption bound, with tensor sizes and capacity as unconstrained symbolic integers (guards decided by z3) and a symbolic failing tensor, is "
               "checked for deadlock/lost wake-up, callback once per task and never concurrent, shared tensor evaluated by one thread at a time, materialised bytes <= capacity + largest tensor, each task written once at its offset through its "
-              "own thread's handle, preallocation to the serial size, quiescence and full budget release when a failure reaches the caller."),
+              "own thread's handle, preallocation to the serial size, quiescence and full budget release when a failure reaches the caller. Large shard configurations are explored delay-bounded (deviations from a round-robin default), sharded by the position of the deviation."),
         note="Trusted: z3; the virtual-thread stand-ins implement the documented contracts of Lock/Condition/ThreadPoolExecutor/as_completed/threading.local (listed in the evidence); context switches only at synchronisation points; more preemptions/tasks/workers than the bound are outside the claim.",
     ),
     "C13": dict(
@@ -106,7 +106,7 @@ CHECKS = {
         engine="hist (on zsym)", level="other", design_ref="DESIGN.md section 4 / C19",
         technique="symbolic execution (zsym/z3) of bounded histories of annotation requests interleaved with graph edits, renames, clones and proto round trips",
         text=("shard / set_pipeline_stage / add_/remove_device_configuration(cascade) with axis, num_shards, stage and num_devices as small symbolic integers (invalid values included) are interleaved with renames, "
-              "replace_input_with, resize_inputs/outputs, clone and serialize->deserialize at IR 11/13: after every step each annotation targets a current input/output of its node and a registered configuration, the "
+              "replace_input_with, resize_inputs/outputs, clone and serialize->deserialize at IR 11/13 and serialization at IR 10 (nothing may be emitted, in any scope) - on main-graph nodes and on a node inside an If body capturing outer values, removal by name / object / equal-looking foreign object: after every step each annotation targets a current input/output of its node and a registered configuration, the "
               "library's own check reports nothing, serialized references carry current names, round trips preserve the annotations, and rejected requests change nothing."),
         note="Trusted: z3; proxies cross-checked per path. Histories of length 1 (full ranges) and 2 (near-valid shard first); group maps and shape reassignment are outside the claim.",
     ),
@@ -115,7 +115,7 @@ CHECKS = {
         technique="symbolic execution (zsym/z3) of bounded histories run plainly, inside nested journals (with/without exception) and under an independent completion counter; differential oracle",
         text=("Every operation of the C01 alphabet with symbolic operands is executed without a journal, inside 1-3 nested journals (optionally leaving by exception) and under an independent wrapper that counts completed "
               "instrumented calls: snapshot and outcomes must be identical, the number of entries must equal the number of completed instrumented operations, after every exit each patched class attribute must be the identical "
-              "object it was at that level's entry (read from the classes themselves), entries must not keep objects alive."),
+              "object it was at that level's entry (read from the classes themselves), entries must not keep objects alive; a Journal object used twice (alone, then nested in another journal) must restore what was installed at its second entry."),
         note="Trusted: z3; proxies cross-checked per path; the set of instrumented attributes is taken from journaling._wrappers.get_original_methods() (names only). One top-level call per journal; hooks are not covered.",
     ),
     "C15": dict(
@@ -123,7 +123,7 @@ CHECKS = {
         technique="symbolic execution (zsym): name-authority add/remove/re-add histories with explicit names as arbitrary z3 strings; NameFixPass and rename_values over symbolic name-slot assignments with per-path native re-execution",
         text=("Part 1: on a real Graph, histories of up to 4 additions/removals/re-additions of nodes whose explicit node and value names are ARBITRARY strings (z3 sequence theory) are explored; z3 proves every generated name "
               "differs from every name registered or generated before and explicit names are untouched - names shaped like generated ones are found by the solver, not listed. Part 2: NameFixPass on every assignment of colliding "
-              "pool names to 6 value and 2 node slots across a nested scope and a function (non-empty, unique per scope incl. enclosing scopes, initializer keys, nothing but names changed, unique names kept, idempotent); "
+              "pool names to 6 value and 2 node slots across a nested scope and a function, plus body-level inputs/initializer that no node touches (non-empty, unique per scope incl. enclosing scopes, initializer keys, nothing but names changed, unique names kept, idempotent); "
               "rename_values over all pairs x targets and all rotations (complete or not at all)."),
         note="Trusted: z3; the two name sets of the authority replaced by list-backed symbolic sets; proxies cross-checked by native re-execution. Longer names/histories and custom name generators are outside the bound.",
     ),
@@ -131,7 +131,7 @@ CHECKS = {
         engine="nia (translation validation)", level="translation_validation", design_ref="DESIGN.md section 4 / C16",
         technique="translation validation in non-linear integer/real arithmetic (z3): library result vs reference semantics for ALL positive integer bindings; parser vs Python's grammar on all token strings up to a length bound",
         text=("For ~4k expression trees over + - * // / % neg floor ceil trunc min max (ints on either side) the real operator overloads, simplify(), partial evaluate(), str(), the parser and "
-              "serialize_dimension_into are run and their SymPy results proved equal to an independent exact semantics for every binding of the symbols to integers >= 1; every string of <= 5 tokens that "
+              "serialize_dimension_into are run and their SymPy results proved equal (also for rounded quotients whose divisor is a difference of dimensions; complete bindings must return plain ints) to an independent exact semantics for every binding of the symbols to integers >= 1; every string of <= 5 tokens that "
               "Python accepts over the documented grammar is parsed and proved to have Python's arithmetic meaning. Counterexample bindings are replayed with exact Fractions."),
         note=("Trusted: z3; the SymPy->z3 translation (validated at start-up against evaluate()); SymPy's exact rational arithmetic in the replay. Queries z3 cannot decide over all integers "
               "(nested symbolic-by-symbolic division) are decided for bindings 1..24 and counted separately in the evidence."),
@@ -149,16 +149,16 @@ CHECKS = {
         technique="symbolic execution (zsym/z3) of Graph.sort/Function.sort/TopologicalSortPass over graphs with symbolic dependency edges, captures and initial order; reference-checked result orders",
         text=("All directed graphs (cyclic ones included) on up to 3 nodes and all DAG edge sets on 4 nodes, times every initial permutation, plus nested families (depth 2 and 3) with symbolic captures, "
               "are sorted by the real code: the result must order every graph w.r.t. same-graph producers of everything used in or below each node, keep each graph's node set, leave an already ordered model "
-              "untouched, be idempotent and identical for an identical graph, agree between Graph.sort, Function.sort and the pass; a cycle must raise ValueError with no order changed."),
+              "untouched, be idempotent and identical for an identical graph, agree between Graph.sort, Function.sort and the pass; a cycle must raise ValueError with no order changed; after a successful sort a symbolic rewiring (no node list touched) followed by another sort must again give a topological order, and the pass must sort the functions of a model too."),
         note="Trusted: z3; the reference needs/order/cycle definitions (DFS over public accessors). Larger graphs and GRAPHS attributes are outside the bound.",
     ),
     "C01": dict(
         engine="hist (on zsym)", level="other", design_ref="DESIGN.md section 4 / C01",
         technique="symbolic execution (zsym/z3) of bounded edit histories over the real IR classes; invariant I(U) on every feasible path; per-path native re-execution",
-        text=("From 7 seed states (optional inputs, multi-output nodes, subgraph capture, two graphs, values with every combination of roles, values listed twice, initializers in two scopes, a cycle) "
+        text=("From 9 seed states (incl. a value that used to be listed by a graph, and a cycle nested under an unsorted root; optional inputs, multi-output nodes, subgraph capture, two graphs, values with every combination of roles, values listed twice, initializers in two scopes, a cycle) "
               "every public mutator of nodes, values, graphs and the three graph collections is driven with symbolic operand selectors and payload ints; z3 decides which paths are feasible and ALL are explored; "
               "after the history the invariant I(U) (uses<->inputs, producer<->outputs, node.graph<->graph contents, role flags<->collections, initializer keys, no producer for inputs/initializers) must hold "
-              "whether calls returned or raised. Quick: histories of length 1; thorough: length 2."),
+              "whether calls returned or raised. Quick: histories of length 1 plus length 2 for multi-element slice assignment/extend followed by a removal; thorough: length 2."),
         note="Trusted: z3; the proxies (every path is cross-checked by a native re-execution of its witness); the oracle uses public accessors only. Longer histories and larger states are outside the bound.",
     ),
     "C06": dict(
@@ -173,7 +173,7 @@ CHECKS = {
         technique="symbolic execution of the real containment check, read entry points and load() over z3 strings with nondeterministic contract-constrained os stubs; SMT (sequence theory + EUF + LIA)",
         text=("The real three-layer containment check runs with base directory and location as symbolic strings and with abspath/realpath/stat as arbitrary functions constrained only by their "
               "contracts; z3 proves: accepted => component-wise lexical containment AND resolved containment AND single link, for all strings within the length bound. Every read entry point is proved "
-              "to open the file only after a successful check (check outcome symbolic). load() is proved to hand out a non-empty base directory for every spelling of a file path. Counterexamples are "
+              "to open the file only after a successful check (check outcome symbolic). The check is proved to run again on EVERY read of the same tensor (link count at the second read symbolic). load() is proved to hand out the model's own directory (dirname, or '.' for a bare name) for every spelling of a file path; another string is replayed on a real tree whose components before '..' are symlinks. Counterexamples are "
               "realised as real directory trees with symlinks/hard links and read through the real library before being reported."),
         note=("Trusted: z3; the os stubs' contracts (canonical-path shape of abspath/realpath, stat/lstat relation); posixpath.join/dirname transcriptions (validated at start-up). "
               "Kernel symlink/hard-link semantics and Windows paths are not decided."),
